@@ -944,6 +944,27 @@ def emit_float_div_params(repo, frags):
     return "\n".join(out) + "\n"
 
 
+def emit_log2_tab(repo, frags):
+    """the 128-entry fixed-point table of the no_std log2 estimator (base/src/math/log.rs)"""
+    out = ["(** GENERATED by tools/translate.py from base/src/math/log.rs. *)",
+           "From Coq Require Import ZArith List.", "Import ListNotations.", "Open Scope Z_scope.", ""]
+    try:
+        src = open(os.path.join(repo, "base/src/math/log.rs")).read()
+        m = re.search(r"const\s+LOG2_TAB\s*:\s*\[u8;\s*(\d+)\]\s*=\s*\[(.*?)\];", src, flags=re.S)
+        if not m:
+            raise LookupError("const LOG2_TAB: [u8; N] = [...] not found")
+        vals = [v.strip() for v in m.group(2).replace("\n", " ").split(",") if v.strip()]
+        nums = [int(v.replace("_", ""), 0) for v in vals]
+        if len(nums) != int(m.group(1)):
+            raise ValueError("length %d differs from the declared %s" % (len(nums), m.group(1)))
+        out.append("Definition LOG2_TAB_gen : list Z := [%s]." % "; ".join(str(n) for n in nums))
+        frags.append(("LOG2_TAB_gen", "ok"))
+    except (LookupError, ValueError, OSError) as ex:
+        frags.append(("LOG2_TAB_gen", "unparsed %s" % str(ex)[:100]))
+        out.append("(* UNPARSED LOG2_TAB_gen *)")
+    return "\n".join(out) + "\n"
+
+
 def main():
     ap = argparse.ArgumentParser()
     ap.add_argument("--repo", default="/repo")
@@ -956,6 +977,7 @@ def main():
         "RoundTables.v": emit_round_tables,
         "Params.v": emit_params,
         "FloatAddParams.v": emit_float_add_params,
+        "Log2Tab.v": emit_log2_tab,
         "FloatDivParams.v": emit_float_div_params,
     }
     for fname, fn in files.items():
